@@ -1,6 +1,7 @@
 package rules
 
 import (
+	"go/constant"
 	"go/token"
 	"go/types"
 	"sort"
@@ -379,4 +380,155 @@ func (c *Ctx) c14ReadThrough() {
 		}
 	}
 	r.Floor("C14/LIVE/read-through", "StoreManager methods examined", n, 1)
+}
+
+// c14BodyOnSuccess: "fetching … returns exactly what the store holds". A handler that has looked
+// a message up answers with it: every path from the lookup to a `return nil` hands the response
+// writer to something that writes (a renderer, a copy, NotFound/Error/Redirect). A return that
+// only set headers or a status (a 304 shortcut computed from fields that do not cover everything
+// the body shows, such as the seen flag) tells the client that what it holds is still what the
+// store holds, without looking.
+func (c *Ctx) c14BodyOnSuccess(handlers []*ssa.Function, producers ...*types.Func) {
+	p, r := c.P, c.R
+	rule := "C14/FETCH/answers-with-body"
+	r.Rule(rule, "in every handler that calls Manager.GetMessage/SourceReader, each path from that call to `return nil` passes a call that is given the http.ResponseWriter and can write a body (anything but Header/WriteHeader; module helpers are looked into)")
+	isRW := func(t types.Type) bool {
+		n, ok := t.(*types.Named)
+		return ok && n.Obj().Pkg() != nil && n.Obj().Pkg().Path() == "net/http" && n.Obj().Name() == "ResponseWriter"
+	}
+	writes := func(in ssa.Instruction) bool {
+		call, ok := in.(*ssa.Call)
+		if !ok {
+			return false
+		}
+		cm := call.Common()
+		if cm.IsInvoke() {
+			if isRW(cm.Value.Type()) {
+				return cm.Method.Name() != "Header" && cm.Method.Name() != "WriteHeader"
+			}
+		}
+		if g := eng.StaticCallee(cm); g != nil && eng.InModule(g) && len(g.Blocks) > 0 {
+			return false // looked into by the search
+		}
+		for _, a := range cm.Args {
+			if isRW(a.Type()) {
+				return true
+			}
+			if mi, ok := a.(*ssa.MakeInterface); ok && isRW(mi.X.Type()) {
+				return true
+			}
+			if ct, ok := a.(*ssa.ChangeInterface); ok && isRW(ct.X.Type()) {
+				return true
+			}
+		}
+		return false
+	}
+	n := 0
+	for _, h := range handlers {
+		var lookups []*ssa.Call
+		eng.EachInstr(h, func(in ssa.Instruction) {
+			call, ok := in.(*ssa.Call)
+			if !ok || !call.Call.IsInvoke() {
+				return
+			}
+			for _, pr := range producers {
+				if call.Call.Method == pr {
+					lookups = append(lookups, call)
+				}
+			}
+		})
+		for _, lk := range lookups {
+			n++
+			cons := "fetch@" + shortFn(h)
+			s := &eng.Search{Target: func(x ssa.Instruction) bool {
+				rt, ok := x.(*ssa.Return)
+				if !ok || x.Parent() != h || len(rt.Results) != 1 {
+					return false
+				}
+				return eng.IsNilConst(eng.ResolveLocalLoad(rt.Results[0]))
+			}, Avoid: writes, Deep: true}
+			if hit := s.After(lk); hit != nil {
+				r.Bad(rule, cons, p.InstrPos(lk), "the handler can return success at %s without anything having been written to the response after the lookup: the client gets a status with no body (a 304 or an empty 200) and takes the copy it holds — or nothing — for what the store holds now", p.InstrPos(hit))
+			} else {
+				r.Ok(rule, cons, p.InstrPos(lk), "every success return after the lookup is preceded by a write to the response")
+			}
+		}
+	}
+	r.Floor(rule, "message lookups in handlers", n, 4)
+}
+
+// c14MarkSeenEffect: "marking seen … effect exactly what the store holds". In each store the flag
+// that Message.Seen() reports is written, in what MarkSeen runs, with the constant true — and with
+// nothing else: a write of false (or of a computed value) makes the operation that is named
+// mark-seen clear or toggle the flag while it answers 200.
+func (c *Ctx) c14MarkSeenEffect(sm *storeModel) {
+	p, r := c.P, c.R
+	rule := "C14/EFFECT/mark-seen"
+	r.Rule(rule, "in each store, what MarkSeen runs writes the field that Message.Seen() reads, and every write there is the constant true (a plain store, or (*atomic.Bool).Store(true))")
+	n := 0
+	for _, T := range sm.impls {
+		ms := p.MethodOf(T, "MarkSeen")
+		if ms == nil || !eng.InModule(ms) || len(ms.Blocks) == 0 || p.TestSupport[T.Obj().Pkg().Path()] {
+			continue
+		}
+		pkgPath := T.Obj().Pkg().Path()
+		rel := strings.TrimPrefix(pkgPath, eng.Mod+"/")
+		// the flag by role: the field the package's Message.Seen() reads
+		seen := p.OptMethod(rel, "Message", "Seen")
+		var fSeen *types.Var
+		if seen != nil {
+			eng.EachInstr(seen, func(in ssa.Instruction) {
+				if fa, ok := in.(*ssa.FieldAddr); ok && fSeen == nil {
+					fSeen = eng.FieldOfAddr(fa)
+				}
+			})
+		}
+		name := eng.ShortType(T)
+		if fSeen == nil {
+			r.Undecided(rule, name, p.Pos(ms.Pos()), "the field read by Message.Seen() could not be found")
+			continue
+		}
+		n++
+		var good, bad []string
+		for g := range p.SyncReach(ms) {
+			if eng.FuncPkgPath(g) != pkgPath {
+				continue
+			}
+			eng.EachInstr(g, func(in ssa.Instruction) {
+				var val ssa.Value
+				switch x := in.(type) {
+				case *ssa.Store:
+					if fa, ok := x.Addr.(*ssa.FieldAddr); ok && eng.SameField(eng.FieldOfAddr(fa), fSeen) {
+						val = x.Val
+					}
+				case *ssa.Call:
+					nm := eng.CalleeName(x.Common())
+					if strings.HasPrefix(nm, "(*sync/atomic.") && len(x.Call.Args) >= 2 {
+						if fa, ok := x.Call.Args[0].(*ssa.FieldAddr); ok && eng.SameField(eng.FieldOfAddr(fa), fSeen) && !strings.HasSuffix(nm, ").Load") {
+							val = x.Call.Args[len(x.Call.Args)-1]
+						}
+					}
+				}
+				if val == nil {
+					return
+				}
+				if k, ok := val.(*ssa.Const); ok && k.Value != nil && k.Value.Kind() == constant.Bool && constant.BoolVal(k.Value) {
+					good = append(good, p.InstrPos(in))
+				} else {
+					bad = append(bad, p.InstrPos(in))
+				}
+			})
+		}
+		sort.Strings(good)
+		sort.Strings(bad)
+		switch {
+		case len(bad) > 0:
+			r.Bad(rule, name, p.Pos(ms.Pos()), "MarkSeen writes the seen flag with something other than true at %s: a message marked as read is reported unread (or the flag flips) although the request was answered with success", strings.Join(bad, ", "))
+		case len(good) == 0:
+			r.Bad(rule, name, p.Pos(ms.Pos()), "nothing that MarkSeen runs writes the flag Message.Seen() reads (%s): the request succeeds and changes nothing", fSeen.Name())
+		default:
+			r.Ok(rule, name, p.Pos(ms.Pos()), "the flag %s is set to true at %s", fSeen.Name(), strings.Join(good, ", "))
+		}
+	}
+	r.Floor(rule, "stores with a MarkSeen", n, 2)
 }
